@@ -17,7 +17,7 @@ META = dict(
                "its distances are non-decreasing and each equals the length of a shortest alternating path (every node and edge step counts 1); "
                "C14_dfs_preorder: the DFS result starts with the origin, no duplicates, exactly the reachable elements, and is the pre-order of the recursive "
                "newest-edge-first depth-first search (each branch followed to its end before backtracking); C14_traversal_exact (same directly on graph_search), "
-               "C14_search_query_forward / _reverse (at the level of SearchQuery::search), C14_no_fuel (the loop's fuel is never exhausted). "
+               "C14_search_query_forward / _reverse (at the level of SearchQuery::search), C14_no_fuel / C14_no_fuel_all_conditions (the loop's fuel is never exhausted, also for every condition list and limit/offset handler). "
                "Witness theorems document two repaired defects: C14_edge_origin_pinned_refuted (before fix 23600df a search from an edge returned its unreachable "
                "older sibling) and C14_visited_chain_refuted (found by this proof: with that fix alone the already visited origin edge cut its node's lazy edge list "
                "and reachable older siblings were lost; repaired by fix 7e27fbc). The model is tied to /repo on every run by differential execution of the extracted "
@@ -57,6 +57,9 @@ def run(ctx):
              "non-trivial = history that reached a state with >= 2 nodes and an edge"
              % (r["histories"], PROFILE, steps, nodes, edges, scope, s["histories"]),
         failures=failures, disagreements=m["disagreements"],
-        assumptions=["traversals are searches without conditions, limit, offset and ordering (the property's own quantifier); "
+        assumptions=["the theorems are stated under the explicit hypothesis adj_ok (gr d) about the slot graph (coq/theories/AdjOk.v: adjacency chains end, are "
+                     "duplicate-free and enumerate exactly a node's edges; edge endpoints are nodes); it is decidable (adj_okb, proved sound), shown for a graph "
+                     "built with the real operations (C14_nonvacuous), and is to be discharged for all reachable states from the graph invariant proved for C08",
+                     "traversals are searches without conditions, limit, offset and ordering (the property's own quantifier); "
                      "conditioned searches are covered only by the differential comparison with the model"],
     )
